@@ -1,6 +1,7 @@
 import KV.PlanLemmas
 import KV.Acyclic
 import KV.Generated.Orders
+import KV.Refuse
 /-! # C09 — unsatisfiable graphs are refused, satisfiable ones accepted, never mis-generated
 
 Property statements only. -/
@@ -26,5 +27,51 @@ theorem C09_no_write_on_refusal :
     Gen.processFileCalls.all (·.errReturns) = true ∧
     Gen.processFilesCalls = [⟨"p.processFile", true, true⟩] ∧
     Gen.mainCalls.map (·.name) = ["config.Run", "os.Exit"] := by decide
+
+/-- **Duplicate supplier (functions, interface bindings).** If two different function providers each list type
+    key `t` in a result group (a bound interface is an extra key of its group), the planner refuses the
+    declaration, whatever the requested type, with a `dup` diagnostic. -/
+theorem C09_refuse_dup {provs : List PSpec} {i j : Nat} {pi pj : PSpec} {t : Nat} (ret : Nat)
+    (hij : i ≠ j) (hi : provs[i]? = some pi) (hj : provs[j]? = some pj)
+    (hki : pi.kind ≠ 1) (hkj : pj.kind ≠ 1) (hti : Lists pi t) (htj : Lists pj t) :
+    ∃ t', newGraph2 provs ret = .error (.dup t') :=
+  dup_refused ret hij hi hj hki hkj hti htj
+
+/-- **Duplicate supplier through expanded struct fields** (a field type also supplied by a function provider, two
+    fields of one struct with the same type, or two struct expansions with a common field type): refused. -/
+theorem C09_refuse_field_dup {provs : List PSpec} (ret : Nat) (hc : FieldClash provs) :
+    ∃ e, newGraph2 provs ret = .error e ∧ DupOrOrphan e :=
+  field_dup_refused ret hc
+
+/-- **Orphan struct expansion.** A `Struct[T]()` whose struct type nobody supplies (no function provider lists it
+    and no earlier expansion has it as a field) is refused. -/
+theorem C09_refuse_orphan {provs pre post : List PSpec} {sp : PSpec} (ret : Nat)
+    (hsplit : structsOf provs = pre ++ sp :: post)
+    (hnofun : ∀ q ∈ provs, q.kind ≠ 1 → ¬ Lists q sp.structTy)
+    (hnofield : sp.structTy ∉ allFieldTys pre) :
+    ∃ e, newGraph2 provs ret = .error e ∧
+      (e = .orphan sp.structTy ∨ (∃ t, e = .dup t) ∨ (∃ sp' ∈ pre, e = .orphan sp'.structTy)) :=
+  orphan_refused ret hsplit hnofun hnofield
+
+/-- **Reachable cycle (of any length, including a provider requiring its own output, also through expanded
+    struct fields).** If a provider reachable from the supplier of the requested type lies on a cycle of the
+    "needs" relation, the planner does not accept the declaration. -/
+theorem C09_refuse_cycle {provs0 : List PSpec} {ret : Nat} {provs : List PSpec} {sup : SupMap} {rp ri q : Nat}
+    (hexp : expand provs0 = .ok (provs, sup)) (hret : sup.lookup ret = some (rp, ri))
+    (hreach : KV.Reach (Needs provs sup) rp q) (hcyc : Relation.TransGen (Needs provs sup) q q) :
+    ∃ e, plan provs0 ret = .error e :=
+  cycle_refused hexp hret hreach hcyc
+
+/-- the same at the level of the declared function providers only -/
+theorem C09_refuse_cycle_decl {provs0 : List PSpec} {ret rp q : Nat} {prp : PSpec}
+    (hrp : provs0[rp]? = some prp) (hk : prp.kind ≠ 1) (hl : Lists prp ret)
+    (hreach : KV.Reach (NeedsFn provs0) rp q) (hcyc : Relation.TransGen (NeedsFn provs0) q q) :
+    ∃ e, plan provs0 ret = .error e :=
+  cycle_refused_decl hrp hk hl hreach hcyc
+
+/-- **Never mis-generated.** The graph of an accepted declaration has no cycle at all. -/
+theorem C09_accepted_acyclic {provs : List PSpec} {ret : Nat} {p : PlanOut} (h : plan provs ret = .ok p) (n : Nat) :
+    ¬ Path p.g n n :=
+  accepted_acyclic h n
 
 end C09
